@@ -1,9 +1,13 @@
 #!/bin/bash
 # runs every registered check (quick by default) on /repo as it is; prints one line per check
+ROOT="$(cd "$(dirname "${BASH_SOURCE[0]}")" && pwd)"
 tier=${1:-quick}
-for id in $(python3 -c "import json;print(' '.join(c['property_id'] for c in json.load(open('/verif/MANIFEST.json'))['checks']))"); do
+shift
+ids="$*"
+[ -n "$ids" ] || ids=$(python3 -c "import json;print(' '.join(c['property_id'] for c in json.load(open('$ROOT/MANIFEST.json'))['checks']))")
+for id in $ids; do
   s=$(date +%s)
-  out=$(./check $id --tier $tier 2>&1); rc=$?
+  out=$("$ROOT/check" $id --tier $tier 2>&1); rc=$?
   e=$(date +%s)
   echo "$id rc=$rc $((e-s))s $(echo "$out" | grep -E "^$id (quick|thorough)" | cut -c1-160)"
   if [ $rc -ne 0 ]; then echo "$out" | grep -E "VIOLATION|MACHINERY|signature" | cut -c1-300 | head -5; fi
